@@ -40,3 +40,18 @@ PROPS["C20"] = {
     ],
     "floor_q": 100, "floor_t": 1000,
 }
+
+PROPS["C16"] = {
+    "level": "exploration",
+    "technique": "rapid-generated hardware models written as sysfs trees; round trip model -> files -> discovery -> accessors, and structural validity predicates over the topology-aware pool tree against the model",
+    "rule": "machines are drawn from packages 1-4 x dies 1-2 x NUMA nodes/die 1-2 x L2 groups 1-3 x cores 1-4 x threads 1-2 "
+            "(<= 64 CPUs), Linux or sequential numbering, offline/isolated subsets, hybrid P/E clusters, cpufreq/EPP classes, "
+            "memory-less CPU nodes, 0-3 CPU-less PMEM/HBM nodes, movable-only nodes, tree/ring/flat distance matrices; a case is "
+            "non-trivial when the machine shows >= 2 of {multi-die, SNC, CPU-less node, memory-less CPU node, offline CPUs, "
+            "isolated CPUs, hybrid}; distinct = distinct hardware model (hash) (x distinct configuration for the pool-tree part)",
+    "assumptions": [FIXTURE, "offline CPUs keep their cpuN/nodeM link (discovery requires it)"],
+    "units": [
+        {"name": "discovery", "pkg": "./pkg/sysfs", "run": "^TestVerifC16Discovery$", "replay_run": "^TestVerifC16DiscoveryReplay$", "q": 300, "t": 40000},
+    ],
+    "floor_q": 20, "floor_t": 500,
+}
